@@ -266,7 +266,7 @@ class FleetStore(Store):
             # 6) Compute new insertion index
             # "FIFO":
                 # one slot before the remaining reserved block
-            insert_idx = len(self.ready_items) - len(self.reserved_events) - 1
+            insert_idx = len(self.reserved_events)
             
 
             # 7) Re‑insert it
